@@ -46,7 +46,8 @@ def make_ctx(tier):
 
 def run(ctx, tier):
     for r, t in (("P1", "publish before READY"), ("P2", "memory orders"), ("P3", "single writer"),
-                 ("P4", "guarded readers"), ("P5", "atomic limit"), ("P6", "no other shared mutable state")):
+                 ("P4", "guarded readers"), ("P5", "atomic limit"), ("P6", "no other shared mutable state"),
+                 ("P7", "waiters: every verdict of ensure_tables is justified by the observed state")):
         ctx.rule(r, t)
     cfgs = C.configs_for(tier, thorough=["release", "ssse3", "avx512", "devchecks", "amalgamated", "nopattern"])
     fxs = C.load_configs(ctx, cfgs)
@@ -203,6 +204,51 @@ def check(ctx, fx):
         missing = [g for g in G if g not in before]
         ctx.check("P1", "all published globals are written before READY", not missing, "%d globals" % len(G),
                   "not written before READY on this path: " + ", ".join(missing))
+
+    # ---- P7: every verdict of ensure_tables is justified by what was observed ---------------
+    # A caller that sees IN_PROGRESS must wait: `true` only after observing READY (or having published),
+    # `false` only after observing FAILED, in the winner's own failure branches, or after the bounded spin.
+    rets = 0
+    loop_conds = [b for b in ens["blocks"] if b["term"].get("kind") in ("ForStmt", "WhileStmt")]
+    after_loop = set()
+    for lb in loop_conds:
+        for sx in lb["succ"]:
+            if sx["when"] == "false" and not sx.get("pruned"):
+                after_loop.add(sx["to"])
+    for b in ens["blocks"]:
+        for i, s in enumerate(b["stmts"]):
+            if s["k"] != "return":
+                continue
+            rets += 1
+            facts = mf.facts_before(b["id"], i) or frozenset()
+            e0 = X.strip(s.get("e"))
+            val = e0.get("v") if isinstance(e0, dict) and e0.get("k") == "lit" and isinstance(e0.get("v"), bool) else None
+            saw_ready = any(f_.startswith("eq:") and f_.endswith("kTablesReady") for f_ in facts)
+            saw_failed = any(f_.startswith("eq:") and f_.endswith("kTablesFailed") for f_ in facts)
+            won = any(f_.startswith("T:cas:") for f_ in facts)
+            published = any((b["id"], j) in set(ready_sites) for j in range(i)) or \
+                any((bb, jj) in set(ready_sites) and (b["id"], i) in reachable_positions(bb, jj) for (bb, jj) in ready_sites)
+            timeout = b["id"] in after_loop
+            key = "ensure_tables: `%s`" % s["text"].strip().rstrip(";")
+            where = s["loc"].replace("/repo/", "")
+            if val is True:
+                ctx.check("P7", key, saw_ready or (won and published), "after observing READY / after publishing",
+                          "returns true without having observed kTablesReady on every path (and without being the "
+                          "thread that just published): table pointers may not be visible yet", where=where)
+            elif val is False:
+                ctx.check("P7", key, saw_failed or won or timeout,
+                          "after observing FAILED / in the initialising thread's own failure branch / after the bounded spin",
+                          "returns false although neither kTablesFailed was observed nor this thread's own initialisation "
+                          "failed: a thread arriving while another one is still initialising (IN_PROGRESS) is told the "
+                          "tables are unavailable instead of waiting", where=where)
+            elif any(f_.startswith("ne:") and f_.endswith("kTablesInProgress") for f_ in facts) and \
+                    any(f_.startswith("ne:") and f_.endswith("kTablesUninit") for f_ in facts):
+                ctx.ok("P7", key, "state known to be READY or FAILED here", where=where)
+            else:
+                ctx.fail("P7", key, "the verdict is computed from the state (`%s`) instead of being decided per observed "
+                         "state: for IN_PROGRESS this answers without waiting for the initialising thread"
+                         % X.show(e0), where=where)
+    ctx.floor("P7", rets, 6, "return statements in ensure_tables")
 
     # ---- P2 ------------------------------------------------------------------------
     n_ops = 0
